@@ -232,8 +232,10 @@ class Fill(Doc):
         propagate_broken = False
         for doc in self.docs:
             if isinstance(doc, AlwaysBreak):
+                # Keep the AlwaysBreak wrapper on the item: the layout
+                # decides flat/broken per fill item, and this item
+                # must never be laid out flat.
                 propagate_broken = True
-                doc = doc.doc
 
             if doc is NIL:
                 continue
